@@ -308,9 +308,16 @@ def macro_rewrite(rnd, text):
     defs = []
     n = 0
     out = []
+    hdr = re.search(r'^project \w+ "[^"]*" (\S+) \+', text, re.M)
+    pstart = hdr.group(1) if hdr else None
     for line in lines:
         s = line.strip()
         k = rnd.random()
+        if pstart and k < 0.5 and re.match(r"^(start|end) %s$" % re.escape(pstart), s):
+            # the built-in macro: a date equal to the project start (time of day included) is ${projectstart}
+            out.append("  %s ${projectstart}" % s.split(" ")[0])
+            n += 1
+            continue
         mm = re.match(r"^(effort) (\d+min)$", s)
         if mm and k >= 0.4 and k < 0.5:
             # a macro with more than nine parameters: $1 must not be substituted inside $10 / $11
